@@ -105,6 +105,10 @@ def gen_cases(rng, tier):
     return cases, {}
 
 
+def neighbours(case, rng):
+    return problems.neighbours(case, rng)
+
+
 def nontrivial(case, out):
     return out[0] == "ok" and "skipped" not in out[1] and out[1]["changed"]
 
